@@ -25,7 +25,7 @@
 (* for a tree, <<"tok", "__empty__", "">> for the placeholder of an        *)
 (* unmatched [ ] group.                                                    *)
 (***************************************************************************)
-EXTENDS MetaGram, SequencesExt
+EXTENDS MetaGram, SequencesExt, GramEngineCore
 
 CONSTANTS MaxLen                \* sentences have at most MaxLen words
 
@@ -33,6 +33,7 @@ CONSTANTS MaxLen                \* sentences have at most MaxLen words
 \* "qk" begins like a match of /q+/ but is none; "p", "k" are string terminals (keywords) of the generated grammars
 Words == {"p", "q", "qq", "k", "r", "rr", "qk"}
 RegexLang(e) == CASE e = "q+" -> {"q", "qq"} [] e = "r+" -> {"r", "rr"} [] OTHER -> {}
+SmallRegexMatch(e, w) == w \in RegexLang(e)
 Sentences == UNION {[1..n -> Words] : n \in 0..MaxLen}
 
 \* ---- rule sets: the generated right-hand side under symbol s, in the frame used by the replay
@@ -41,83 +42,6 @@ RuleSet(m, u) == [entry |-> [unwrap |-> "off", m |-> Grp("And", "off", <<Pat("Sy
                   s     |-> [unwrap |-> u, m |-> m],
                   a     |-> [unwrap |-> "off", m |-> Pat("Terminal", "Equals", "p")],
                   b     |-> [unwrap |-> "off", m |-> Pat("Terminal", "Regexp", "q+")]]
-
-RECURSIVE TermsOf(_)
-TermsOf(m) == IF m.t = "pat" THEN (IF m.role = "Terminal" /\ m.comp = "Equals" THEN {m.e} ELSE {})
-              ELSE UNION {TermsOf(m.es[i]) : i \in DOMAIN m.es}
-\* Rules.keywords: every terminal expression (string or regexp) of the rule set; a token equal to one of them
-\* matches only string terminals (the regexp bodies are in the list too, as in the code - harmless)
-RECURSIVE AllTerminals(_)
-AllTerminals(m) == IF m.t = "pat" THEN (IF m.role = "Terminal" THEN {m.e} ELSE {}) ELSE UNION {AllTerminals(m.es[i]) : i \in DOMAIN m.es}
-Keywords(rules) == UNION {AllTerminals(rules[n].m) : n \in DOMAIN rules}
-
-Ng == [ok |-> FALSE, steps |-> 0, kids |-> <<>>, spin |-> FALSE]
-Ok(n, kids, spin) == [ok |-> TRUE, steps |-> n, kids |-> kids, spin |-> spin]
-EmptyTok == <<"tok", "__empty__", "">>
-IsTok(x) == x[1] = "tok"
-TokOf(name, word) == <<"tok", name, word>>
-TreeOf(name, kids) == <<"tree", name, kids>>
-
-\* _compare_token
-Compare(rules, word, p) == IF p.comp = "Equals" THEN p.e = word
-                           ELSE word \notin Keywords(rules) /\ word \in RegexLang(p.e)
-\* _match_terminal: the token at distance c from the end
-MTerm(rules, ts, c, p) == IF Len(ts) <= c THEN [ok |-> FALSE, word |-> ""]
-                          ELSE LET w == ts[Len(ts) - c] IN [ok |-> Compare(rules, w, p), word |-> w]
-
-\* _unwrap_children
-RECURSIVE UnwrapKids(_, _)
-UnwrapKids(rules, kids) ==
-  IF kids = <<>> THEN <<>>
-  ELSE LET h == Head(kids)
-           u == IF h[2] \in DOMAIN rules THEN rules[h[2]].unwrap ELSE "*"
-           hs == IF IsTok(h) THEN <<h>>
-                 ELSE IF u = "1" /\ Len(h[3]) = 1 THEN <<h[3][1]>>
-                 ELSE IF u = "*" THEN h[3]
-                 ELSE <<h>>
-       IN hs \o UnwrapKids(rules, Tail(kids))
-
-RECURSIVE MSym(_, _, _, _), MEntry(_, _, _, _, _), MOr(_, _, _, _, _), MAnd(_, _, _, _, _, _, _, _), MRep(_, _, _, _, _, _, _, _)
-\* _match_symbol: result kids = <<the entry for this symbol>>
-MSym(rules, ts, c, sym) ==
-  LET p == rules[sym].m IN
-  IF p.t = "pat" /\ p.role = "Terminal"
-  THEN LET T == MTerm(rules, ts, c, p) IN IF T.ok THEN Ok(1, <<TokOf(sym, T.word)>>, FALSE) ELSE Ng
-  ELSE LET X == MEntry(rules, ts, c, p, TRUE) IN
-       IF X.ok THEN Ok(X.steps, <<TreeOf(sym, UnwrapKids(rules, X.kids))>>, X.spin) ELSE [Ng EXCEPT !.spin = X.spin]
-\* _match_entry
-MEntry(rules, ts, c, p, allowRep) ==
-  IF p.t = "grp"
-  THEN IF p.rep # "off" /\ allowRep THEN MRep(rules, ts, c, p, 0, 0, <<>>, FALSE)
-       ELSE IF p.op = "Or" THEN MOr(rules, ts, c, p, 1)
-       ELSE MAnd(rules, ts, c, p, Len(p.es), 0, <<>>, FALSE)
-  ELSE IF p.role = "Terminal"
-       THEN (IF MTerm(rules, ts, c, p).ok THEN Ok(1, <<>>, FALSE) ELSE Ng)        \* an anonymous terminal leaves no entry
-       ELSE MSym(rules, ts, c, p.e)
-\* _match_or: first alternative that matches
-MOr(rules, ts, c, p, i) ==
-  IF i > Len(p.es) THEN Ng
-  ELSE LET X == MEntry(rules, ts, c, p.es[i], TRUE) IN
-       IF X.ok \/ X.spin THEN X ELSE MOr(rules, ts, c, p, i + 1)
-\* _match_and: entries from the last to the first
-MAnd(rules, ts, c, p, i, steps, kids, spin) ==
-  IF i = 0 THEN Ok(steps, kids, spin)
-  ELSE LET X == MEntry(rules, ts, c + steps, p.es[i], TRUE) IN
-       IF X.spin /\ ~X.ok THEN [Ng EXCEPT !.spin = TRUE]
-       ELSE IF ~X.ok THEN Ng
-       ELSE MAnd(rules, ts, c, p, i - 1, steps + X.steps, X.kids \o kids, spin \/ X.spin)
-\* _match_repeat
-MRep(rules, ts, c, p, steps, found, kids, spin) ==
-  LET Done == IF found = 0
-              THEN (CASE p.rep \in {"*", "?"} -> Ok(0, <<>>, spin) [] p.rep = "[]" -> Ok(0, <<EmptyTok>>, spin) [] OTHER -> [Ng EXCEPT !.spin = spin])
-              ELSE Ok(steps, kids, spin)
-  IN IF ~(c + steps < Len(ts)) THEN Done
-     ELSE LET X == MEntry(rules, ts, c + steps, p, FALSE) IN
-          IF X.spin THEN [Ng EXCEPT !.spin = TRUE]
-          ELSE IF ~X.ok THEN Done
-          ELSE IF p.rep \in {"?", "[]"} THEN Ok(steps + X.steps, X.kids \o kids, spin)
-          ELSE IF X.steps = 0 THEN [Ng EXCEPT !.spin = TRUE]      \* the round consumed nothing and tokens remain: the loop never ends
-          ELSE MRep(rules, ts, c, p, steps + X.steps, found + 1, X.kids \o kids, spin)
 
 \* parse: the whole token list must be consumed; the tokenizer appends the line-break token
 Toks(sentence) == sentence \o <<"\n">>
